@@ -74,3 +74,7 @@ check("C18", "translation_validation", "Hypothesis schema grammar x 6 option com
       "Each generated schema (and a fixed all-cardinality service schema) is compiled under the 3 x 2 supported option combinations; every variant must import, pass the C03 structural validation against protoc's descriptors, have the same marker-indexed structure and service description as the default variant, and encode PRNG-drawn values to the same bytes and JSON.",
       "Programs are sampled; value trees come from a PRNG seeded by a Hypothesis-drawn integer (deterministic, replayable).",
       "DESIGN.md 3/C18")
+check("C11", "exploration", "Hypothesis service schemas + PRNG-drawn calls over grpclib's in-process channel on a virtual-time loop vs echo-service model",
+      "Generated and fixed service definitions are compiled; a subclass of the generated base overrides a drawn subset of methods with recording handlers (some raising GRPCError); calls of every cardinality with drawn request values, stream lengths 0-4 and None/set stub- and call-level options go through the generated stub over ChannelFor on the controlled loop. Exactly the same-named handler must run once with the sent requests, the caller must get the handler's responses, UNIMPLEMENTED / handler errors must surface, and the kwargs reaching channel.request() must follow per-call-over-stub precedence.",
+      "Services and calls are sampled; the loop is single-schedule (FIFO) with a virtual clock, so a hang is a deterministic deadlock and never a wall-clock verdict.",
+      "DESIGN.md 3/C11")
